@@ -77,8 +77,14 @@ def harness(E, ctx, aux, desc):
 
 
 def jobs(tier):
-    return s1_jobs(tier, harness) + front_end_jobs(tier, harness)
+    from vf.props.C14 import edit_step_jobs
+
+    return s1_jobs(tier, harness) + edit_step_jobs("paths") + front_end_jobs(tier, harness)
 
 
 def replay(desc):
+    if desc.get("kind") == "edit-step":
+        from vf.props.C14 import edit_step
+
+        return edit_step(desc["pre"], desc["ops"], "paths")
     return [f for f in check(desc) if f["kind"] != "skip"]
